@@ -1006,6 +1006,23 @@ OP(cp_pokdl) {
 	W(r = cp_pokdl_prv(R[0], R[1], PR[0], ec_d); if (r == RLC_OK) v = cp_pokdl_ver(R[0], R[1], PR[0]));
 	out_int(r); out_int(v);
 }
+/* the statement whose witness is zero (y = identity): a legitimate, if degenerate, statement - its proof must be a
+ * function of the inputs and the generator only, and must verify */
+OP(cp_pokdl_zero) {
+	int r = 0, v = 0;
+	bn_zero(R[2]);
+	ec_set_infty(PR[0]);
+	W(r = cp_pokdl_prv(R[0], R[1], PR[0], R[2]); if (r == RLC_OK) v = cp_pokdl_ver(R[0], R[1], PR[0]));
+	out_int(r); out_int(v); out_bn(R[0]);
+}
+OP(cp_sokdl_zero) {
+	int r = 0, v = 0;
+	static const uint8_t msg_[5] = { 1, 2, 3, 4, 5 };
+	bn_zero(R[2]);
+	ec_set_infty(PR[0]);
+	W(r = cp_sokdl_sig(R[0], R[1], msg_, sizeof(msg_), PR[0], R[2]); if (r == RLC_OK) v = cp_sokdl_ver(R[0], R[1], msg_, sizeof(msg_), PR[0]));
+	out_int(r); out_int(v); out_bn(R[0]);
+}
 OP(cp_ped_com) { int r = 0; W(r = cp_ped_com(PR[0], P[0], B[0], B[1])); out_int(r); out_ep(PR[0]); }
 
 /* ---- pairing-based ---- */
@@ -1192,7 +1209,7 @@ static const op_t ops[] = {
 	E(cap_rabin_enc, 0), E(cap_rabin_dec, 0), E(cap_bdpe_enc, 0), E(cap_ibe_enc, 1), E(cap_ibe_dec, 1),
 	E(mpc_sss, 0), E(mpc_mt, 0),
 	E(cp_rsa_enc_dec, 0), E(cp_rsa_sig_ver, 0), E(cp_rsa_gen_small, 0), E(cp_phpe, 0), E(cp_ecdsa, 0),
-	E(cp_ecdsa_gen, 0), E(cp_ecss, 0), E(cp_ecdh, 0), E(cp_ecmqv, 0), E(cp_ecies, 0), E(cp_vbnn, 0), E(cp_pokdl, 0),
+	E(cp_ecdsa_gen, 0), E(cp_ecss, 0), E(cp_ecdh, 0), E(cp_ecmqv, 0), E(cp_ecies, 0), E(cp_vbnn, 0), E(cp_pokdl, 0), E(cp_pokdl_zero, 0), E(cp_sokdl_zero, 0),
 	E(cp_ped_com, 0),
 	E(g1_mul, 1), E(g1_mul_gen, 1), E(g2_mul, 1), E(g2_mul_gen, 1), E(g2_add, 1), E(g2_mul_sim, 1), E(gt_exp, 1),
 	E(gt_exp_gen, 1), E(gt_inv_mul, 1), E(pc_map, 1), E(pc_map_sim2, 1), E(pc_map_simn, 1), E(g1_mul_sim_lot, 1), E(g2_mul_sim_lot, 1), E(ep2_norm_sim, 1), E(ep2_mul_sim_dig, 1), E(g1_map, 1), E(g2_map, 1),
